@@ -24,7 +24,7 @@ def gen_body(rng, names, idx, depth):
     literal, so that merged records are mostly acyclic as well), except for one in 16."""
     def ref():
         lower = [n for n in names if n < idx]
-        if rng.chance(1, 16):
+        if rng.chance(1, 16) and names:
             return ("var", rng.choice(names))
         if lower:
             return ("var", rng.choice(lower))
@@ -46,7 +46,24 @@ def gen_prio(rng):
     return rng.weighted([("n", 6), ("b", 4), ("t", 2), (("p", -1), 1), (("p", 0), 2), (("p", 1), 2), (("p", 2), 1)])
 
 
-def gen_literal(rng, pool):
+def gen_inner_literal(rng, pool, outer):
+    k = rng.range(1, min(3, len(pool)))
+    names = sorted(rng.shuffle(pool)[:k])
+    fields = []
+    for n in names:
+        if rng.chance(1, 14):
+            body = None
+        else:
+            visible = sorted(set([x for x in names if x < n] + [x for x in outer if x not in names or rng.chance(1, 3)]))
+            body = gen_body(rng, visible, max(visible + [n]) + 1 if visible else n, rng.range(0, 2))
+        ctrs = []
+        if rng.chance(1, 6):
+            ctrs.append(("ge", ("add", gen_body(rng, [x for x in names if x < n], n, 0), ("num", -rng.range(0, 30)))))
+        fields.append((n, gen_prio(rng), body, "stat", ctrs))
+    return fields
+
+
+def gen_literal(rng, pool, nested=True):
     k = rng.range(1, len(pool))
     names = sorted(rng.shuffle(pool)[:k])
     if rng.chance(1, 3):
@@ -56,16 +73,25 @@ def gen_literal(rng, pool):
     # and no body may mention it
     dyn = (max(names) if rng.chance(2, 3) else rng.choice(names)) if rng.chance(1, 5) and len(names) > 1 else None
     static = [n for n in names if n != dyn]
+    subs = set()
     for n in names:
         if rng.chance(1, 12):
             body = None
+        elif nested and rng.chance(1, 6):
+            # a nested record literal: its bodies mention its own (lower-numbered) fields and the
+            # lower-numbered fields of the enclosing literal; inner names may shadow outer ones
+            body = ("sub", gen_inner_literal(rng, pool, [x for x in static if x < n and x not in subs]))
+            subs.add(n)
         else:
-            body = gen_body(rng, static, n, rng.range(0, 3))
+            # a reference to a record-valued sibling is a type error in arithmetic (or an alias, which is
+            # outside the modelled fragment): mostly avoided
+            vis = [x for x in static if x not in subs] if rng.chance(5, 6) else static
+            body = gen_body(rng, vis, n, rng.range(0, 3))
         # contracts that depend on (lower-numbered) sibling fields: v >= bound (mostly satisfied), v != bound
         ctrs = []
-        if rng.chance(1, 4):
+        if rng.chance(1, 4) and not (body is not None and body[0] == "sub" and rng.chance(9, 10)):
             for _ in range(rng.range(1, 2)):
-                bound = gen_body(rng, static, n, rng.range(0, 1))
+                bound = gen_body(rng, [x for x in static if x not in subs], n, rng.range(0, 1))
                 if rng.chance(3, 5):
                     ctrs.append(("ge", ("add", bound, ("num", -rng.range(0, 30)))))
                 else:
@@ -79,6 +105,12 @@ def tm_vars(t):
         return {t[1]}
     if t[0] == "num":
         return set()
+    if t[0] == "sub":
+        out = set()
+        for f in t[1]:
+            for b in ([f[2]] if f[2] is not None else []) + [c[1] for c in fctrs(tuple(f))]:
+                out |= tm_vars(b)
+        return out
     out = set()
     for x in t[1:]:
         out |= tm_vars(x)
@@ -90,6 +122,8 @@ def tm_occ(t):
         return 1
     if t[0] == "num":
         return 0
+    if t[0] == "sub":
+        return sum(tm_occ(b) for f in t[1] for b in ([f[2]] if f[2] is not None else []) + [c[1] for c in fctrs(tuple(f))])
     return sum(tm_occ(x) for x in t[1:])
 
 
@@ -193,7 +227,15 @@ def fctrs(f):
     return [tuple(c) for c in f[4]] if len(f) > 4 else []
 
 
+def field_sexp(f):
+    return "(%s%d %s %s%s)" % ("dyn " if fkind(f) == "dyn" else "", f[0], prio_sexp(f[1]),
+                               tm_sexp(f[2]) if f[2] is not None else "_",
+                               "".join(" (%s %s)" % (k, tm_sexp(t)) for (k, t) in fctrs(f)))
+
+
 def tm_sexp(t):
+    if t[0] == "sub":
+        return "(sub%s)" % "".join(" " + field_sexp(tuple(f)) for f in t[1])
     if t[0] == "num":
         return "(num %d)" % t[1]
     if t[0] == "var":
@@ -209,10 +251,7 @@ def history_sexp(steps):
     out = []
     for s in steps:
         if s[0] == "lit":
-            out.append("(lit%s)" % "".join(" (%s%d %s %s%s)" % ("dyn " if fkind(f) == "dyn" else "", f[0], prio_sexp(f[1]),
-                                                                    tm_sexp(f[2]) if f[2] is not None else "_",
-                                                                    "".join(" (%s %s)" % (k, tm_sexp(t)) for (k, t) in fctrs(f)))
-                                            for f in s[1]))
+            out.append("(lit%s)" % "".join(" " + field_sexp(f) for f in s[1]))
         else:
             out.append("(merge %d %d)" % (s[1], s[2]))
     names = set(f[0] for s in steps if s[0] == "lit" for f in s[1])
@@ -220,6 +259,8 @@ def history_sexp(steps):
 
 
 def tm_nickel(t):
+    if t[0] == "sub":
+        return literal_nickel([tuple(f) for f in t[1]])
     if t[0] == "num":
         return str(t[1]) if t[1] >= 0 else "(%d)" % t[1]
     if t[0] == "var":
